@@ -361,7 +361,29 @@ def run(ctx):
                         e.set_upper_limits(**{k: min(v * rnd.choice([1.2, 3.0, 30.0]), e.get_upper_limit(k))})
                 except Exception:  # noqa
                     pass
-        constraint = name in ("R(RC)(RC)", "R(RC)(RQ)", "R(RC)", "R(RQ)") and rnd.random() < 0.35
+        # boundary cases of the bound/fixed handling: a fixed parameter sitting exactly on one of its limits, and data whose
+        # optimum lies beyond a limit that is exactly zero (the default lower limit of most parameters)
+        if j % 4 == 0:
+            for e in start.get_elements(recursive=True):
+                for k, v in e.get_values().items():
+                    if k == "n" and e.get_upper_limit(k) == 1.0:
+                        e.set_values(n=1.0)
+                        e.set_fixed(n=True)
+                    elif e.is_fixed(k) and math.isfinite(e.get_lower_limit(k)) and rnd.random() < 0.5:
+                        try:
+                            e.set_values(**{k: e.get_lower_limit(k)})
+                        except Exception:  # noqa
+                            pass
+        if j % 4 == 1:
+            # the generating series resistance is negative; the fitted circuit keeps its default limits [0, inf)
+            r0 = [e for e in true.get_elements(recursive=True) if e.get_symbol() == "R"][0]
+            r0.set_lower_limits(R=-math.inf)
+            r0.set_values(R=-abs(r0.get_value("R")) * rnd.uniform(0.05, 0.5))
+            s0 = [e for e in start.get_elements(recursive=True) if e.get_symbol() == "R"][0]
+            s0.set_fixed(R=False)
+            s0.set_lower_limits(R=0.0)
+            s0.set_upper_limits(R=math.inf)
+        constraint = name in ("R(RC)(RC)", "R(RC)(RQ)", "R(RC)", "R(RQ)") and rnd.random() < 0.35 and j % 4 > 1
         if constraint:
             # the constrained parameter itself must be free (an expression on a fixed parameter is a contradictory request)
             [e for e in start.get_elements(recursive=True) if e.get_symbol() == "R"][-1].set_fixed(R=False)
